@@ -233,6 +233,20 @@ theorem dictToClass_resolves (K : ClientEnv) (fuel : Nat) (data : Dict) (cn q : 
           exact viaModule_of_table K _ _ _ _ q hr
         · rw [if_neg h9] at hr; cases hr
 
+theorem assoc_mem {β : Type} (k : Str) (v : β) (l : List (Str × β)) (h : assoc k l = some v) : (k, v) ∈ l := by
+  induction l with
+  | nil => cases h
+  | cons p rest ih =>
+    obtain ⟨n, g⟩ := p
+    unfold assoc at h
+    by_cases hn : n = k
+    · rw [if_pos hn] at h
+      simp only [Option.some.injEq] at h
+      subst hn; subst h
+      exact List.mem_cons_self
+    · rw [if_neg hn] at h
+      exact List.mem_cons_of_mem _ (ih h)
+
 /-! ### sender side -/
 
 theorem mem_setKey (k : Str) (v : Val) (d : Dict) (p : Str × Val) (h : p ∈ setKey k v d) : p = (k, v) ∨ p ∈ d := by
@@ -444,5 +458,73 @@ theorem recreate_wrapper (K : ClientEnv) (cls : Str) (A : Val) (args : List Val)
     Option.isSome_some]
   rw [dictToClass_resolves K 6 _ cls cls (lookup_arrived_class _ _ _) (lookup_arrived_exception _ _ _) hres,
     makeException_arrived K cls cls A args attrs hA hctor hnd]
+
+/-! ### the server's decision to reply -/
+
+/-- the class relations under which handleRequest's handler catches the exception and sends it back:
+    an `Exception`, not a ConnectionClosedError, and a SerializeError or no CommunicationError at all -/
+structure Sendable (f : Flags) : Prop where
+  exc : f.isException = true
+  notClosed : f.isConnClosed = false
+  serOrNotComm : f.isSerialize = true ∨ f.isComm = false
+
+/-- the connection's fate after an error reply: kept, unless the method is a callback or the exception is a
+    CommunicationError / SecurityError (re-raised after the reply) -/
+def fateAfter (f : Flags) (isCallback : Bool) : ConnFate :=
+  if (isCallback || f.isComm || f.isSecurity) = true then .dropped else .active
+
+theorem errorPath_sent {W : Type} (S : ServerEnv) (c : Codec W) (R : Render) (xv : Exc) (tb : Val) (cb : Bool)
+    (hs : Sendable (S.info xv.cls)) (sent : Exc) (w : W) (h : serializeException c R xv tb = .ok (sent, w)) :
+    errorPath S c R xv tb cb = ⟨some ⟨true, false, w⟩, fateAfter (S.info xv.cls) cb⟩ := by
+  unfold errorPath fateAfter
+  have hcond : (!(S.info xv.cls).isConnClosed && ((S.info xv.cls).isSerialize || !(S.info xv.cls).isComm)) = true := by
+    rw [hs.notClosed]
+    rcases hs.serOrNotComm with h1 | h1 <;> simp [h1]
+  simp only [hcond, if_true, h]
+
+/-! ### the concrete tree codec satisfies the law -/
+
+theorem relistL_eq_map (f : Bool) (xs : List Val) : relistL f xs = xs.map (relist f) := by
+  induction xs with
+  | nil => rfl
+  | cons x xs ih => simp only [relistL, ih, List.map_cons]
+
+theorem relistD_eq_map (f : Bool) (kv : Dict) : relistD f kv = kv.map (fun p => (p.1, relist f p.2)) := by
+  induction kv with
+  | nil => rfl
+  | cons p r ih => obtain ⟨k, v⟩ := p; simp only [relistD, ih, List.map_cons]
+
+theorem hasObjL_false (xs : List Val) (h : ∀ x ∈ xs, hasObj x = false) : hasObjL xs = false := by
+  induction xs with
+  | nil => rfl
+  | cons x xs ih =>
+    simp only [hasObjL, h x List.mem_cons_self, ih (fun y hy => h y (List.mem_cons_of_mem _ hy)), Bool.or_false]
+
+theorem hasObjD_false (kv : Dict) (h : ∀ p ∈ kv, hasObj p.2 = false) : hasObjD kv = false := by
+  induction kv with
+  | nil => rfl
+  | cons p r ih =>
+    obtain ⟨k, v⟩ := p
+    simp only [hasObjD, h (k, v) List.mem_cons_self, ih (fun y hy => h y (List.mem_cons_of_mem _ hy)), Bool.or_false]
+
+theorem treeCodec_law (seqOut : Bool) (err : Exc) :
+    CodecLaw (treeCodec seqOut err) (relist seqOut) (fun v => hasObj v = false) where
+  roundtrip := by
+    intro v hv
+    refine ⟨v, ?_, rfl⟩
+    simp only [treeCodec, hv, Bool.false_eq_true, if_false]
+  dom_str := fun _ => rfl
+  dom_bool := fun _ => rfl
+  dom_list := fun xs h => by unfold hasObj; exact hasObjL_false xs h
+  dom_tuple := fun xs h => by unfold hasObj; exact hasObjL_false xs h
+  dom_dict := fun kv h => by unfold hasObj; exact hasObjD_false kv h
+  norm_str := fun _ => rfl
+  norm_bool := fun _ => rfl
+  norm_list := fun xs => by simp only [relist, relistL_eq_map]
+  norm_tuple := fun xs => by
+    cases seqOut
+    · right; simp only [relist, relistL_eq_map, Bool.false_eq_true, if_false]
+    · left; simp only [relist, relistL_eq_map, if_true]
+  norm_dict := fun kv => by simp only [relist, relistD_eq_map]
 
 end Pyro.Exceptions
